@@ -134,6 +134,7 @@ def oracle(events, res):
     filters = {}
     gone = set()
     dead_monitors = set()
+    to_activatable = {}       # connection -> serials of the messages it sent to a name that has a service file
     for i, ev in enumerate(events):
         st, closed, sent = res["steps"][i], res["closed"][i], res["sent"][i]
         if st is None:
@@ -145,9 +146,11 @@ def oracle(events, res):
             if parse_tok(t)["member"] == 7:
                 apply_noc(primary, None, t)
         after = dict(primary)
-        actor = int(f[1]) if f[0] != "C" else None
-        if f[0] == "C":
+        actor = int(f[1]) if f[0] not in ("C", "Cu") else None
+        if f[0] in ("C", "Cu"):
             actor = int(sent.split("/")[1][1:])
+        if f[0] == "S" and f[3] in ("n%d" % k for k in mi.ACTIVATABLE):
+            to_activatable.setdefault(int(f[1]), set()).add(int(f[6]))
         # --- processed messages the harness knows about
         processed = []        # (token, sender_conn, addressed_conn)
         if sent is not None and f[0] != "D" and actor not in mons_before:
@@ -195,7 +198,9 @@ def oracle(events, res):
             for t in got:
                 m = parse_tok(t)
                 if m["sender"] == "d" and m["dest"] == "u%d" % x:
-                    flags.append({"cls": "addressed-to-monitor", "step": i,
+                    # the NoReply for a call of x that was still held for activation when x became a monitor
+                    held = m["type"] == "e" and m["err"] == 4 and m["rserial"] in to_activatable.get(x, ())
+                    flags.append({"cls": "held-call-noreply" if held else "addressed-to-monitor", "step": i,
                                   "what": "monitor %d read a message the bus originated and addressed to the monitor itself: %s" % (x, t)})
             # a message read twice in one step (bus-made refusal errors are distinct messages with equal content)
             for t in set(got):
@@ -203,7 +208,7 @@ def oracle(events, res):
                     if not any(fl["step"] == i and t in fl["what"] for fl in flags):
                         flags.append({"cls": "copies", "step": i, "what": "monitor %d read %d copies of %s" % (x, got.count(t), t)})
         # --- send_closes
-        if f[0] not in ("C", "D") and actor in mons_before:
+        if f[0] not in ("C", "Cu", "D") and actor in mons_before:
             m = parse_tok(sent)
             if actor not in closed:
                 flags.append({"cls": "monitor-not-closed-local" if is_local(m) and m["iface"] == 2 else "monitor-not-closed", "step": i,
@@ -267,8 +272,15 @@ def compare_paired(evA, resA, evB, resB):
             else:
                 same = a == b
             if not same:
-                diffs.append({"step": i, "conn": k, "with_monitor": a, "without": b})
+                # with the monitor the client reads more, and all of it are messages SENT BY a connection that is a monitor by now
+                extra, rest = list(a), list(b)
+                for t in b:
+                    if t in extra:
+                        extra.remove(t)
+                        rest.remove(t)
+                from_mon = bool(extra) and not rest and all(t.split("/")[1] in ("u%d" % x for x in mons) for t in extra)
+                diffs.append({"step": i, "conn": k, "with_monitor": a, "without": b, "cls": "held-from-monitor" if from_mon else "differs"})
         for k in (resA["closed"][i] ^ resB["closed"][i]) - mons:
             diffs.append({"step": i, "conn": k, "with_monitor": "closed" if k in resA["closed"][i] else "open",
-                          "without": "closed" if k in resB["closed"][i] else "open"})
+                          "without": "closed" if k in resB["closed"][i] else "open", "cls": "differs"})
     return diffs
